@@ -182,10 +182,20 @@ func (e *Exec) callFn(fr *frame, st *State, c *ssa.CallCommon, fn *ssa.Function,
 		}
 		return &Tuple{}, true
 	case "vcOldBegin":
+		if st.oldMode == 0 {
+			if o := e.curOld(); o != nil {
+				st.oldView = o.clone()
+				st.oldView.oldMode = 0
+				st.oldView.oldView = nil
+			}
+		}
 		st.oldMode++
 		return tInt(0), true
 	case "vcOld":
 		st.oldMode--
+		if st.oldMode == 0 {
+			st.oldView = nil
+		}
 		return args[1], true
 	case "vcMod1":
 		if e.modCollect != nil {
@@ -256,6 +266,14 @@ func (e *Exec) callFn(fr *frame, st *State, c *ssa.CallCommon, fn *ssa.Function,
 	}
 	if strings.HasPrefix(name, "ghost_") {
 		return e.ghostLoad(st, fn, args), true
+	}
+	if name == "vcModGhostAll" {
+		if e.modCollect != nil {
+			if cst, ok := c.Args[0].(*ssa.Const); ok {
+				*e.modCollect = append(*e.modCollect, &Ptr{Kind: pModGhostAll, GhostName: constantString(cst)})
+			}
+		}
+		return &Tuple{}, true
 	}
 	if name == "vcModGhost" {
 		if e.modCollect != nil {
@@ -460,7 +478,8 @@ func (e *Exec) ghostLoad(st *State, fn *ssa.Function, args []Value) Value {
 	rs := e.ti.sortOf(fn.Signature.Results().At(0).Type())
 	ref := e.asTerm(st, args[0], fn.Signature.Params().At(0).Type())
 	e.ghostSorts[name] = rs
-	arr := e.heapComp(st, "G."+name, SInt, arraySort(SInt, rs))
+	e.ghostIdx[name] = ref.Sort
+	arr := e.heapComp(st, "G."+name, ref.Sort, arraySort(ref.Sort, rs))
 	v := tSelect(arr, ref, rs)
 	if e.quant == 0 {
 		e.assume(st, e.wellTyped(st, fn.Signature.Results().At(0).Type(), v))
@@ -469,13 +488,19 @@ func (e *Exec) ghostLoad(st *State, fn *ssa.Function, args []Value) Value {
 }
 
 func (e *Exec) havocLoc(st *State, p *Ptr) {
+	if p.Kind == pModGhostAll {
+		name := "G." + p.GhostName
+		is, rs := e.ghostIdxOf(p.GhostName), e.ghostSortOf(p.GhostName)
+		st.heap[name] = e.smt.fresh("hv."+name, arraySort(is, rs))
+		return
+	}
 	if p.Kind == pModGhost {
 		name := "G." + p.GhostName
 		rs, ok := e.ghostSorts[p.GhostName]
 		if !ok {
 			rs = e.ghostSortOf(p.GhostName)
 		}
-		arr := e.heapComp(st, name, SInt, arraySort(SInt, rs))
+		arr := e.heapComp(st, name, p.Ref.Sort, arraySort(p.Ref.Sort, rs))
 		e.setHeap(st, name, tStore(arr, p.Ref, e.smt.fresh("hv", rs)))
 		return
 	}
@@ -708,6 +733,15 @@ func (e *Exec) modularCall(st *State, ct *Contract, sig *types.Signature, args [
 			continue
 		}
 		e.assume(st, g)
+	}
+	if ct.Attrs["fs-mutating"] != "" && e.topCt != nil && e.spec == 0 {
+		// a crash may happen right after this file-system mutation: the crash invariant of the function
+		// under verification must hold in the state it leaves behind
+		for i, cl := range e.topCt.CrashInv {
+			if g, ok := e.evalSpec(st, e.topCt.PkgPath, cl.GenFn, e.topArgs, e.entry); ok {
+				e.oblige(st, "crash", fmt.Sprintf("crash.%s@%s", clauseName(cl, i), calleeName), g, where)
+			}
+		}
 	}
 	return res, true
 }
